@@ -9,25 +9,13 @@ TB = ("Trusted: Coq 8.16.1 kernel + coqc (vm_compute, no native_compute); axioms
       "tree by T1 (regenerated Gen/Facts.v) and T2 (differential execution) on every run. ")
 CHECKS = {
  "C01": dict(
-   text="Proof (Coq): the node-chain model of iwkv.c (which node: _lx_find_bounds at level 0; where: _sblk_find_pi_mm; overwrite / add / add-to-upper / "
-        "split at the pivot: _lx_addkv, _lx_split_addkv; delete / remove node: _lx_del_lw) refines an ordered association list for EVERY "
-        "operation history, every level choice and every comparator that is a total preorder (kv_refines_map), unconditionally for the byte-key "
-        "comparator with node size and pivot regenerated from the source; NodeInv preserved; an error leaves the state unchanged. "
-        "Tied by differential execution (answers, node structure, cursor bookkeeping) and a python reference-map oracle.",
-   design="5/C01",
-   note=TB + "Integer/real-number/compound comparators enter the theorem through the three order laws (checked on samples by C19, proved only for "
-        "plain byte keys). Data-block layout (L3) and skip-list links above level 0 (L2) are not in this model; they are covered by the structure "
-        "comparison and by C06. malloc failure and I/O error paths are not exercised. other-database isolation is by construction in the model "
-        "(one chain per database) and checked on the implementation by the oracle.",
-   technique="Coq refinement proof by induction over operation lists + extracted-model vs implementation correspondence + regenerated facts"),
+   text='Proof (Coq): the node-chain model of iwkv.c (which node: _lx_find_bounds; where: _sblk_find_pi_mm; overwrite / add / add-to-upper / split at the pivot: _lx_addkv, _lx_split_addkv; delete / remove node: _lx_del_lw) refines an ordered association list for EVERY operation history and every comparator that is a total preorder (kv_refines_map), unconditionally for the byte-key and the integer-key comparator with node size and pivot regenerated from the source; NodeInv preserved; an error leaves the state unchanged; and the multi-level skip search (_lx_roll_forward on every level, any assignment of levels to nodes, any starting level) ends on the node the level-0 walk ends on (skip_search_is_linear). Tied by differential execution (answers, node structure, cursor bookkeeping, the node the real search ends on) and a python reference-map oracle; directed scripts around the 115-byte prefix, varint boundaries, node pages.',
+   design="5/C01", note=TB + 'Real-number and compound comparators enter the theorem through the three order laws (checked on samples by C19). Data-block layout (L3) is not in this model; stored skip-list links are compared with the links the model derives from the levels by the independent reader of C06 on every image. malloc failure and I/O error paths are not exercised. Other-database isolation is by construction in the model (one chain per database) and checked on the implementation by the oracle.',
+   technique='Coq refinement proof by induction over operation lists + skip-search theorem + extracted-model vs implementation correspondence + regenerated facts'),
  "C02": dict(
-   text="Proof (Coq): on the cursor model of iwkv.c (_cursor_to_lr with the head/tail pseudo nodes, node copies, skip marks) a scan from before-first with NEXT "
-        "returns exactly the records of the chain, in chain order, once each, for every chain of non-empty nodes (scan_next_all), AFTER_LAST+PREV the exact "
-        "reverse (scan_prev_all); EQ positions on the key or reports not-found whatever the cursor did before (cursor_eq_spec); with C01 that is key order. "
-        "GE positioning and the positioned operations are in the model and compared with the implementation call by call (answers and cursor "
-        "bookkeeping cnpos/skip_next/copy), and decided on the implementation by a reference-map oracle; no theorem is proved about them.",
-   design="5/C02", note=TB + "Partial: GE and the positioned read/write operations have no theorem. The oracle tracks the cursor position from the implementation's own answers.",
-   technique="Coq proof (induction over nodes and slots) + extracted cursor model vs implementation correspondence + reference oracle"),
+   text="Proof (Coq): on the cursor model of iwkv.c (_cursor_to_lr with the head/tail pseudo nodes, node copies, skip marks) a scan from before-first with NEXT returns exactly the records of the chain, in chain order, once each (scan_next_all), AFTER_LAST+PREV the exact reverse (scan_prev_all); EQ and GE position on exactly the record the ordered specification designates or report not-found exactly when there is none, whatever the cursor did before (cursor_eq_spec, cursor_ge_spec); deleting / overwriting through a positioned cursor acts on exactly the record it reads (cursor_del_spec: flat' = s_del flat k0; cursor_set_spec: same node, slot and key, value replaced, all other records and the key order unchanged), invariant kept. Model compared with the implementation call by call (answers and cursor bookkeeping cnpos/skip_next/copy); reference-map oracle incl. GE/EQ probes around deleted head keys and keys longer than the cached prefix.",
+   design="5/C02", note=TB + "copy_val / copy_key / is_matched_key reads are model + correspondence + oracle only. The oracle tracks the cursor position from the implementation's own answers.",
+   technique='Coq proofs (induction over nodes and slots, ordered-list specification) + extracted cursor model vs implementation correspondence + reference oracle'),
  "C03": dict(
    text="Proof (Coq), partial: the field codecs of the file image are inverse (little-endian header fields, variable-length numbers of the data-block index as "
         "written by _kvblk_sync_mm and read by _kvblk_at_mm). The reopen identity itself is decided per history on the implementation: dump/metadata before close = "
@@ -56,13 +44,9 @@ CHECKS = {
         "state of the store passes the auditor is established per history on real images, not by a theorem (skip-list links above level 0 and data-block layout are not in the store model).",
    technique="extracted Coq auditor on real images + Coq soundness proofs of its accounting + histories with destroy/re-create, metadata, reopen"),
  "C07": dict(
-   text="Proof (Coq), partial: lock skeleton of the KV API as an LTS over ranked reader/writer locks; for any number of threads and any calls that request locks in "
-        "increasing rank order every reachable state with an unfinished call has an enabled step (no_deadlock), and the API skeletons follow that order; the order of "
-        "the lock macros is re-read from the source on every run. The implementation runs generated multi-threaded programs; every execution must terminate (watchdog) and "
-        "have a linearisation consistent with program order (exact Wing-Gong search).",
-   design="5/C07", note=TB + "Partial: atomicity (serialisability), the worker-count/condvar handshake of exclusive sections, rwlock writer preference and data-race freedom are NOT proved; "
-        "schedules are sampled by the kernel scheduler. A scan is a sequence of atomic cursor calls and is not required to be atomic as a whole.",
-   technique="Coq proof of deadlock freedom under a lock-rank discipline + concurrent executions checked for linearisability and termination"),
+   text='Proof (Coq): deadlock freedom of the lock discipline in its dynamic form - threads are arbitrary programs of acquire/release actions on ranked reader/writer locks (any number of threads, any program length, locks taken and released repeatedly inside a call); if every acquisition happens while the thread holds only locks of strictly lower rank and a finished program holds nothing, every reachable state with an unfinished program has an enabled step (C07_no_deadlock_dynamic; also the static call-skeleton form). The discipline is CHECKED ON THE CODE on every run: harness/h_lockord.c interposes every pthread lock operation of the library, classifies the lock objects (store, database, allocator, file, log, worker-count, cursor list) and reports every (held -> acquired) pair per API call over batteries covering every API call x open-flag combinations and random scripts; ranks are read from coq/CC/LockOrder.v; a mutating call that never takes a lock of the skeleton is reported too. Plus generated multi-threaded programs: every execution must terminate (watchdog) and have a linearisation (exact Wing-Gong search).',
+   design="5/C07", note=TB + 'Partial: atomicity (conflict serialisability of the data steps), the worker-count/condvar handshake of exclusive sections, rwlock writer preference and data-race freedom are NOT proved; thread schedules are sampled by the kernel scheduler. A scan is a sequence of atomic cursor calls and is not required to be atomic as a whole.',
+   technique='Coq proof of deadlock freedom under a dynamic lock-rank discipline + lock-order tracer on the real library + concurrent executions checked for linearisability and termination'),
  "C08": dict(
    text="Proof (Coq) over a model of the backup image layout and of opening it (recover mode 2): split_mk_image, replay_cut_mode2, open_image_is_savepoint_state. "
         "Implementation: online backup with a second writer thread released at the k-th chunk of the main-file copy; the image must open to a prefix state within "
@@ -70,13 +54,9 @@ CHECKS = {
    design="5/C08", note=TB + "Covers the image half; thread schedules are sampled. Known finding C08-growth-during-main-copy is reported, not failed.",
    technique="Coq proofs over the image model + backup-under-load scenarios with a snapshot oracle"),
  "C09": dict(
-   text="Proof (Coq), partial: the list-level facts behind every cursor fix-up loop (insert: cnpos>=idx -> cnpos+1; remove: cnpos>idx -> cnpos-1, same slot -> successor; "
-        "split at the pivot: kept part / new node at cnpos-pivot) and their cursor-level forms (fix_insert_keeps, fix_remove_keeps, fix_remove_current: the fixed-up cursor "
-        "reads the record it read before, resp. the successor with skip_next = 1) - for all node contents and slots. The full fix-up model "
-        "(KV/Cursor.v, all loops incl. node removal and stale-copy refresh) is compared with the implementation's cursor bookkeeping after every mutation, and a "
-        "reference oracle decides skip / repeat / resurrect on the implementation for scans continued across mutations.",
-   design="5/C09", note=TB + "Partial: scan_stable and fresh_inv are stated as open goals, not proved.",
-   technique="Coq list-level proofs + extracted cursor model vs implementation correspondence + scan-stability oracle"),
+   text="Proof (Coq): on the node model with cursor copies (every fix-up loop of iwkv.c after the recorded repairs): whatever a successful put does (overwrite, insert, new node in front / behind, split with the record going either way) every cursor on a record stays on a record with the same key, fresh copy, same pending step (put_keeps_cursor); every successful delete - by key or through a cursor, including the cursor's own record and the removal of a whole node - leaves each cursor in one of four proved outcomes (del_keeps_cursor); the remaining forward AND backward scan of a cursor after the mutation is the old one plus the new record iff it lies ahead (resp. in front) / minus the deleted key (scan_stable_put/del, scan_prev_stable_put/del); the invariant (chain invariant, unique node ids, every cursor copy fresh and in range) holds in EVERY state the API-level model reaches by any sequence of put / delete / cursor open / move / set / delete / close (db_inv_reachable), so the theorems apply to every reachable state (db_scan_stable_*, db_rscan_stable_*), instantiated for byte and integer keys with node size and pivot from the source and no hypothesis left. The model is compared with the implementation's cursor bookkeeping after every mutation; a reference oracle decides skip / repeat / resurrect.",
+   design="5/C09", note=TB + 'Real-number and compound comparators enter as hypotheses. Skip-list levels are not in this model (see C01/C06).',
+   technique='Coq proofs (effects of put/delete, invariant over reachable states, ordered-list specification) + extracted cursor model vs implementation correspondence + scan-stability oracle'),
  "C10": dict(
    text="Proof (Coq) over a model of the block allocator (bitmap, free-extent tree, lfbk cache, allocate/aligned allocate/deallocate/reallocate guards): bitmap lemmas, "
         "allocation only flips free bits and returns a fully free, aligned, large-enough region; invalid releases refused. Tied by comparing rc, region, free-extent list, "
